@@ -319,6 +319,10 @@ func blockOnListChangeWorker(
 		ctx.l.Tracef("waiting for %s to get a list item until %s", keyNameStr(), end.Format(time.StampMilli))
 	}
 
+	// from here on the client counts as blocked for CLIENT UNBLOCK
+	ctx.cs.beginBlocking()
+	defer ctx.cs.endBlocking()
+
 	verifPoint("blk:before-register", ctx.cs.id, "")
 	ws := blockFn()
 	defer func() { ctx.dsc.ds.leaveListBlock(ws) }()
